@@ -473,7 +473,8 @@ def run(ck):
             for i in range(ck.n(5, 30)):
                 # builders called on the end of a long dependency chain nothing has hashed yet, a chain (and a barrier)
                 # inside the builder; loaded / run / cleaned with ~170 Python frames left (loadergen.Deep; defect D21)
-                progs.append(('deep%d' % i, lg.generate_deep(rng, first='compound', rounds=rng.choice([1, 2]), max_tasks=300), DEEP_SLACK))
+                progs.append(('deep%d' % i, lg.generate_deep(rng, first='compound', rounds=rng.choice([1, 2, 2]), max_tasks=330,
+                                                  nfirst=(0, 0, 1, 1, 2)), DEEP_SLACK))
             for name, prog, slack in progs:
                 it = lg.Interner(prog)
                 term = lg.render_coq(prog, it)
@@ -496,7 +497,12 @@ def run(ck):
                         ck.count('start: with a key no task has')
                     backend = 'file' if (len(cases) % 5 == 3 and not sr.large) else 'dict'
                     lname, held, failed = lock_state(sr, start, rng)
-                    res = sr.run(start, gen_ops(rng), backend, root, held, failed)
+                    ops = gen_ops(rng)
+                    if sr.large and j == 0:
+                        # a long program from the empty store, through the collapse and the reloads, to the end and once more
+                        ops = ['execute', 'load', 'execute', 'cleanup_keep', 'load']
+                        held, failed, lname = [], [], 'none'
+                    res = sr.run(start, ops, backend, root, held, failed)
                     ck.count('start: %s' % sname)
                     ck.count('locks: %s' % lname)
                     if res is None:
